@@ -56,6 +56,29 @@ def shapes(D):
     for _ in range(D):
         obj = ('binary', 'add', obj, ('object', [('fix', 'f', False, 'd', None, ('binary', 'add', ('sfield', 'f'), N(1)))]))
     out.append(('super-chain', ('field', obj, 'f')))
+    # inheritance chain through the `f+:` sugar
+    obj = ('object', [('fix', 'f', False, 'd', None, N(0))])
+    for _ in range(D):
+        obj = ('binary', 'add', obj, ('object', [('fix', 'f', True, 'd', None, N(1))]))
+    out.append(('plus-chain', ('field', obj, 'f')))
+    # the same, folded at run time (one object expression, D layers)
+    out.append(('plus-chain-rt', ('local', [('mk', [('n', None)], ('if', is0('n'), ('object', [('fix', 'f', False, 'd', None, N(0))]),
+                                                                   ('binary', 'add', call(V('mk'), dec('n')), ('object', [('fix', 'f', True, 'd', None, N(1))]))))],
+                                  ('binary', 'add', ('field', call(V('mk'), N(D)), 'f'), N(0)))))
+    # nested objects compared
+    mko = [('mk', [('n', None)], ('if', is0('n'), ('object', []), ('object', [('fix', 'a', False, 'd', None, call(V('mk'), dec('n')))])))]
+    out.append(('compare-objects', ('local', mko, ('binary', 'eq', call(V('mk'), N(D)), call(V('mk'), N(D))))))
+    # arrays with two elements per level (the nested one last / first)
+    mk2 = [('mk', [('n', None)], ('if', is0('n'), ('array', []), ('array', [N(0), call(V('mk'), dec('n'))])))]
+    out.append(('compare-nested2', ('local', mk2, ('binary', 'ne', call(V('mk'), N(D)), call(V('mk'), N(D))))))
+    out.append(('manifest-nested2', ('local', mk2, call(V('mk'), N(D)))))
+    # default-argument chain: each level's default forces the next
+    out.append(('default-chain', ('local', [('f', [('n', None), ('x', ('if', is0('n'), N(0), ('binary', 'add', N(1), call(V('f'), dec('n')))))], V('x'))],
+                                  call(V('f'), N(D)))))
+    # nested conditions / asserts inside the recursion
+    out.append(('assert-chain', ('local', [('f', [('n', None)], ('assert', ('binary', 'ge', V('n'), N(0)), None,
+                                                                 ('if', is0('n'), N(0), ('binary', 'add', N(1), call(V('f'), dec('n'))))))],
+                                 call(V('f'), N(D)))))
     return out
 
 
@@ -69,6 +92,9 @@ def cycles(K):
     out.append(('field-cycle-manifest', ('object', fields)))
     out.append(('arith-cycle', ('local', [('c0', None, ('binary', 'add', V('c0'), N(1)))], V('c0'))))
     return out
+
+
+CYCLE_NAMES = ('local-cycle', 'field-cycle', 'field-cycle-manifest', 'arith-cycle')
 
 
 def classify(ans):
@@ -143,6 +169,10 @@ def run(rep):
             if classify(final) == 'ok' and cl not in ('ok', 'SO'):
                 rep.violation(key, 'under limit %d the program failed with %s instead of stack overflow' % (s, a[:80]),
                               {'src': src, 'max_stack': s, 'impl': a})
+            # bounded: every level of these shapes needs at least one frame, so depth D cannot succeed under a limit < D
+            if cl == 'ok' and s < D and classify(final) == 'ok' and name not in CYCLE_NAMES:
+                rep.violation(key, 'nesting of depth %d was evaluated under limit %d: the limit does not bound this shape' % (D, s),
+                              {'src': src, 'max_stack': s, 'impl': a})
             # monotone: once it succeeds, every larger limit gives the same value
             if first_ok is not None and s >= first_ok and C.norm(a) != C.norm(next(x[1] for x in rows if x[0] == first_ok)):
                 rep.violation(key, 'raising the limit from %d to %d changed the outcome' % (first_ok, s),
@@ -197,7 +227,9 @@ def run(rep):
         calls = rng.sample(calls, min(len(calls), 260))
     calls += ['std.prune({x: self})', 'std.deepJoin(local a = [a]; a)', 'std.flattenDeepArray(local a = [a]; a)',
               'std.mergePatch("x", {x: self})', 'std.manifestJsonEx({x: self}, " ")', 'std.toString(local a = [a]; a)',
-              '{x: self} == {x: self}', 'local a = [a]; a < a', 'std.manifestYamlDoc({x: self})', 'std.manifestTomlEx({x: self}, " ")',
+              '{x: self} == {x: self}', 'local a = [a]; a < a', '(local a = [a]; a) == (local b = [b]; b)',
+              '(local a = [a]; a) != (local b = [b]; b)', 'std.assertEqual(local a = [a]; a, local b = [b]; b)',
+              '(local a = [1, a]; a) == (local b = [1, b]; b)', '(local a = {x+: 1} + a; a).x', 'local o = {x+: 1, y: o + o}; o.y.y.x', 'std.manifestYamlDoc({x: self})', 'std.manifestTomlEx({x: self}, " ")',
               'std.manifestPython({x: self})', 'std.manifestXmlJsonml(local a = ["a", a]; a)', 'std.manifestIni({sections: {x: self}})']
     for i in range(0, len(calls), 40):
         chunk = calls[i:i + 40]
